@@ -44,6 +44,29 @@
 (* brings a cell to zero removes the cell from the cache and the record    *)
 (* step skips a missing cell - a caller parked between check and record    *)
 (* is then never counted (violates CounterOK only when K >= 1).            *)
+(*                                                                         *)
+(* First use of a value (Fresh = TRUE).  The counter of a value does not   *)
+(* exist before the value is first requested: it is created ON DEMAND by   *)
+(* the first caller.  At the finest grain the admission path of a caller   *)
+(* is then three steps, and up to K callers may be anywhere inside it:     *)
+(*   Lookup(r, v)   look the value up (shared lock): hit or miss;          *)
+(*   Create(id)     on a miss take the exclusive lock and install a fresh  *)
+(*                  counter UNLESS THE VALUE HAS ONE BY NOW (re-check),    *)
+(*                  read the counter, decide; the caller is then parked    *)
+(*                  exactly like after Check;                              *)
+(*   Record(id)     as before.                                             *)
+(* (Request and Check do lookup + create in one step: the cache's          *)
+(* AddIfAbsent under one exclusive lock is that refinement.)  What the     *)
+(* design guarantees: a value never gets a second counter object           *)
+(* (OneObject: `made' counts the objects installed per value), hence the   *)
+(* unit recorded by an earlier first caller is never orphaned: CounterOK / *)
+(* Conserved / ZeroAfterDrain hold in every state, in particular the       *)
+(* figure equals the live entries at quiescence.                           *)
+(* BothInstall = TRUE is the third deliberately broken variant: Create     *)
+(* installs without the re-check ("both creators install"): the later      *)
+(* install replaces the counter on which the earlier caller was already    *)
+(* recorded; violates OneObject and CounterOK for K >= 2 and is invisible  *)
+(* for K <= 1 (no two callers between lookup and record).                  *)
 (***************************************************************************)
 EXTENDS HotParamArgs, FiniteSets, TLC
 
@@ -56,7 +79,9 @@ CONSTANTS
     MaxOps,     \* bound on the number of requests
     Alias,      \* FALSE: the design.  TRUE: broken variant (exit keyed by the latest arguments)
     K,          \* 0: admission is one step.  K >= 1: check and record are separate steps, at most K callers in between
-    DropZero    \* FALSE: the design.  TRUE: broken variant (a cell that returns to zero is removed; record skips a missing cell)
+    DropZero,   \* FALSE: the design.  TRUE: broken variant (a cell that returns to zero is removed; record skips a missing cell)
+    Fresh,      \* FALSE: every value has its cell from the start.  TRUE: cells are created on demand (Lookup / Create are steps, K >= 1)
+    BothInstall \* FALSE: the design.  TRUE: broken variant (Create installs a counter without re-checking that the value still has none)
 
 VARIABLES
     live,       \* id -> [res, v] of every live (admitted, not exited) entry
@@ -66,11 +91,13 @@ VARIABLES
     nid,        \* number of requests so far (ids are 1..nid)
     dec,        \* [prop, impl] decisions of the last request (property level / cell based)
     pend,       \* id -> [res, v, prop, impl]: callers that have checked and not yet recorded (K >= 1)
-    has,        \* [Res -> SUBSET Values]: values whose cell is present in the cache (changes only when DropZero)
+    has,        \* [Res -> SUBSET Values]: values whose cell is present in the cache (changes only when DropZero or Fresh)
+    look,       \* id -> [res, v, hit]: callers that have looked the value up and not yet created / read its cell (Fresh, K >= 1)
+    made,       \* [Res -> [Values -> Nat]]: number of counter objects installed for the value so far
     h           \* history (scenario for the conformance driver; hidden by VIEW)
 
-vars == <<live, inflight, cnt, lastv, nid, dec, pend, has, h>>
-view == <<live, inflight, cnt, lastv, dec, pend, has>>
+vars == <<live, inflight, cnt, lastv, nid, dec, pend, has, look, made, h>>
+view == <<live, inflight, cnt, lastv, dec, pend, has, look, made>>
 
 Thr(r, v) == ThrOf(Rules[r].items, Rules[r].thr, v)
 
@@ -88,21 +115,26 @@ Init ==
     /\ nid = 0
     /\ dec = [prop |-> TRUE, impl |-> TRUE]
     /\ pend = << >>
-    /\ has = [r \in Res |-> Values]
+    /\ has = [r \in Res |-> IF Fresh THEN {} ELSE Values]
+    /\ look = << >>
+    /\ made = [r \in Res |-> [v \in Values |-> IF Fresh THEN 0 ELSE 1]]
     /\ h = << >>
 
 \* room for one more caller inside the admission path
-Room == K = 0 \/ Cardinality(DOMAIN pend) < K
-InUse == Cardinality(DOMAIN live) + Cardinality(DOMAIN pend)
-\* the check step creates a missing cell (AddIfAbsent); only the DropZero variant ever misses one
-Touch(r, v) == IF DropZero /\ v # None THEN [has EXCEPT ![r] = @ \cup {v}] ELSE has
+Room == K = 0 \/ Cardinality(DOMAIN pend) + Cardinality(DOMAIN look) < K
+InUse == Cardinality(DOMAIN live) + Cardinality(DOMAIN pend) + Cardinality(DOMAIN look)
+\* the check step creates a missing cell (AddIfAbsent); only the DropZero variant and first use (Fresh) ever miss one
+Touch(r, v) == IF (DropZero \/ Fresh) /\ v # None THEN [has EXCEPT ![r] = @ \cup {v}] ELSE has
+\* ... and that is one more counter object for the value (counted for on-demand creation only)
+Made(r, v)  == IF Fresh /\ v # None /\ v \notin has[r] THEN [made EXCEPT ![r][v] = @ + 1] ELSE made
 
 \* a request on a ruled resource; v = None: the selected argument is missing
 Request(r, v) ==
     /\ nid < MaxOps
     /\ Room
-    /\ UNCHANGED pend
+    /\ UNCHANGED <<pend, look>>
     /\ has' = Touch(r, v)
+    /\ made' = Made(r, v)
     /\ nid' = nid + 1
     /\ dec' = [prop |-> Admit(inflight, r, v), impl |-> ImplAdmit(cnt, r, v)]
     /\ lastv' = IF v # None THEN v ELSE lastv
@@ -125,7 +157,7 @@ Other(o, v) ==
     /\ lastv' = IF v # None THEN v ELSE lastv
     /\ dec' = [prop |-> TRUE, impl |-> TRUE]
     /\ h' = Append(h, [op |-> "req", id |-> nid + 1, res |-> o, v |-> v])
-    /\ UNCHANGED <<inflight, cnt, pend, has>>
+    /\ UNCHANGED <<inflight, cnt, pend, has, look, made>>
 
 \* K >= 1, first half of the admission path (rule-check slot): the caller reads the cell, decides, and is parked
 \* with its decision before the statistic slot ("chain.checked")
@@ -137,9 +169,40 @@ Check(r, v) ==
     /\ dec' = [prop |-> Admit(inflight, r, v), impl |-> ImplAdmit(cnt, r, v)]
     /\ pend' = pend @@ ((nid + 1) :> [res |-> r, v |-> v, prop |-> Admit(inflight, r, v), impl |-> ImplAdmit(cnt, r, v)])
     /\ has' = Touch(r, v)
+    /\ made' = Made(r, v)
     /\ lastv' = IF v # None THEN v ELSE lastv
     /\ h' = Append(h, [op |-> "chk", id |-> nid + 1, res |-> r, v |-> v])
-    /\ UNCHANGED <<live, inflight, cnt>>
+    /\ UNCHANGED <<live, inflight, cnt, look>>
+
+\* Fresh, K >= 1: the admission path at its finest grain.  First step: the caller looks the value up (shared lock) and
+\* learns whether the value has a counter NOW; it may be overtaken by any other caller before its next step
+Lookup(r, v) ==
+    /\ Fresh /\ K >= 1 /\ Room
+    /\ v # None
+    /\ nid < MaxOps
+    /\ InUse < MaxLive                        \* (prunes the model only)
+    /\ nid' = nid + 1
+    /\ look' = look @@ ((nid + 1) :> [res |-> r, v |-> v, hit |-> v \in has[r]])
+    /\ lastv' = v
+    /\ h' = Append(h, [op |-> "look", id |-> nid + 1, res |-> r, v |-> v])
+    /\ UNCHANGED <<live, inflight, cnt, dec, pend, has, made>>
+
+\* second step: a caller that missed takes the exclusive lock and installs a fresh counter (zero) - in the design only if
+\* the value STILL has none (the re-check); then every caller reads the value's counter and decides, and is parked before
+\* the statistic slot exactly as after Check.  BothInstall: the miss is trusted, the counter in place is replaced.
+Create(id) ==
+    /\ id \in DOMAIN look
+    /\ LET p       == look[id]
+           install == ~p.hit /\ (BothInstall \/ p.v \notin has[p.res])
+           cnt2    == IF install THEN [cnt EXCEPT ![p.res][p.v] = 0] ELSE cnt      \* a new object counts from zero
+       IN  /\ look' = [i \in DOMAIN look \ {id} |-> look[i]]
+           /\ has' = [has EXCEPT ![p.res] = @ \cup {p.v}]
+           /\ made' = IF install THEN [made EXCEPT ![p.res][p.v] = @ + 1] ELSE made
+           /\ cnt' = cnt2
+           /\ dec' = [prop |-> Admit(inflight, p.res, p.v), impl |-> ImplAdmit(cnt2, p.res, p.v)]
+           /\ pend' = pend @@ (id :> [res |-> p.res, v |-> p.v, prop |-> Admit(inflight, p.res, p.v), impl |-> ImplAdmit(cnt2, p.res, p.v)])
+    /\ h' = Append(h, [op |-> "crt", id |-> id])
+    /\ UNCHANGED <<live, inflight, lastv, nid>>
 
 \* second half (statistic slot): an admitted caller becomes a live entry and is counted - for the value it was
 \* checked with, whatever happened to the other entries of that value in between; a refused one just leaves
@@ -153,7 +216,7 @@ Record(id) ==
                   /\ cnt' = IF p.v = None \/ p.v \notin has[p.res] THEN cnt ELSE [cnt EXCEPT ![p.res][p.v] = @ + 1]
              ELSE UNCHANGED <<live, inflight, cnt>>
     /\ h' = Append(h, [op |-> "rec", id |-> id])
-    /\ UNCHANGED <<lastv, nid, dec, has>>
+    /\ UNCHANGED <<lastv, nid, dec, has, look, made>>
 
 Exit(id) ==
     /\ id \in DOMAIN live
@@ -168,12 +231,14 @@ Exit(id) ==
            /\ has' = IF DropZero /\ e.res \in Res /\ iv # None /\ iv \in has[e.res] /\ cnt[e.res][iv] - 1 <= 0
                             THEN [has EXCEPT ![e.res] = @ \ {iv}] ELSE has
     /\ h' = Append(h, [op |-> "exit", id |-> id])
-    /\ UNCHANGED <<lastv, nid, dec, pend>>
+    /\ UNCHANGED <<lastv, nid, dec, pend, look, made>>
 
 Next ==
     \/ \E r \in Res, v \in Values \cup {None} : Request(r, v)
     \/ \E o \in Oth, v \in Values : Other(o, v)
     \/ \E r \in Res, v \in Values \cup {None} : Check(r, v)
+    \/ \E r \in Res, v \in Values : Lookup(r, v)
+    \/ \E id \in DOMAIN look : Create(id)
     \/ \E id \in DOMAIN pend : Record(id)
     \/ \E id \in DOMAIN live : Exit(id)
 
@@ -202,8 +267,12 @@ CappedStrict == \A r \in Res, v \in Values : Cardinality(LiveFor(r, v)) <= Thr(r
 ZeroAfterDrain == (DOMAIN live = {}) => \A r \in Res, v \in Values : inflight[r][v] = {} /\ cnt[r][v] = 0
 \* the cell-based decision is the property-level decision
 DecisionOK == dec.prop = dec.impl
+\* on-demand creation: a value gets ONE counter object, however many callers missed it at the same time (a cache that never
+\* drops a cell: DropZero = FALSE), and it has one exactly when some caller created it
+OneObject == \A r \in Res, v \in Values : made[r][v] <= 1 /\ (DropZero \/ (made[r][v] = 1 <=> v \in has[r]))
 
 TypeOK == /\ nid \in 0..MaxOps /\ DOMAIN live \subseteq 1..MaxOps /\ DOMAIN pend \subseteq 1..MaxOps
-          /\ DOMAIN live \cap DOMAIN pend = {}
-          /\ Cardinality(DOMAIN pend) <= K
+          /\ DOMAIN look \subseteq 1..MaxOps
+          /\ DOMAIN live \cap DOMAIN pend = {} /\ DOMAIN live \cap DOMAIN look = {} /\ DOMAIN pend \cap DOMAIN look = {}
+          /\ Cardinality(DOMAIN pend) + Cardinality(DOMAIN look) <= K
 =============================================================================
